@@ -558,6 +558,24 @@ fn replay_file(p: &Path, verbose: bool) -> i32 {
         return 0;
     }
     match engine {
+        "srcsim" if v.get("graphemes").is_some() => {
+            let text = v["graphemes"]["text"].as_str().unwrap_or("").to_string();
+            let shape = v["graphemes"]["shape"].as_u64().unwrap_or(0) as u8;
+            match srcsim::graphemes_check(&text, shape) {
+                Some((exp, obs)) => {
+                    if verbose {
+                        println!("reproduced property=C10 class=graphemes\n text={:?} shape={}\n expected={}\n observed={}", text, shape, exp, obs);
+                    }
+                    1
+                }
+                None => {
+                    if verbose {
+                        println!("not reproduced");
+                    }
+                    0
+                }
+            }
+        }
         "srcsim" => {
             let rp: srcsim::Replay = serde_json::from_value(v).unwrap_or_else(|e| harness_error(&format!("bad srcsim replay: {}", e)));
             match srcsim::replay(&rp) {
@@ -658,6 +676,31 @@ fn minimise_file(src: &Path, dst: &Path) {
         return;
     }
     match v["engine"].as_str().unwrap_or("") {
+        "srcsim" if v.get("graphemes").is_some() => {
+            // shrink the text cluster by cluster
+            let shape = v["graphemes"]["shape"].as_u64().unwrap_or(0) as u8;
+            let mut text = v["graphemes"]["text"].as_str().unwrap_or("").to_string();
+            let mut progress = true;
+            while progress {
+                progress = false;
+                let cl = srcsim::graphemes_reference(&text);
+                for (_, a, b) in cl {
+                    let cand = format!("{}{}", &text[..a], &text[b..]);
+                    if srcsim::graphemes_check(&cand, shape).is_some() {
+                        text = cand;
+                        progress = true;
+                        break;
+                    }
+                }
+            }
+            let mut d = v.clone();
+            d["graphemes"]["text"] = json!(text);
+            if let Some((e, o)) = srcsim::graphemes_check(&text, shape) {
+                d["expected"] = json!(e);
+                d["observed"] = json!(o);
+            }
+            std::fs::write(dst, serde_json::to_vec_pretty(&d).unwrap()).unwrap();
+        }
         "srcsim" => {
             let rp: srcsim::Replay = serde_json::from_value(v).unwrap();
             let m = srcsim::minimise(&rp);
